@@ -63,6 +63,8 @@ if req.get("table"):
             pair = f'"{key}->{qname}"'
             name = f"ob_{len(oblig)}"
             oblig.append({"name": name, "key": key, "qasm": qname, "kind": "gate",
+                          "stmt": f'export_equiv 4%Z meqb {pair} {g_mat(S)} (qelib_mat "{qname}") = true'})
+            oblig.append({"name": name + "_doc", "key": key, "qasm": qname, "kind": "doc",
                           "stmt": f'meqb 4%Z {g_mat(S)} (qt_scale (export_phase {pair}) (qelib_mat "{qname}")) = true'})
             oblig.append({"name": name + "_ph", "key": key, "qasm": qname, "kind": "phase",
                           "stmt": f'ph_unit (export_phase_doc {pair}) = true'})
